@@ -15,7 +15,8 @@ EXPLANATION = (
     "(applied-iff condition, predicate) pairs equals the specification read off the property (tid equality iff a tid was "
     "requested - `is not None`, so tid 0 works; class = id>>24 in class list OR subclass = id>>16 in subclass list iff either "
     "list is non-empty; isinstance(OsLogEvent) complementary between the two listings; log listing: thread and process "
-    "filters). R3: predicates and the methods have no side effects. R4: the command line wires each option into the "
+    "filters). R3: predicates and the methods have no side effects. R5: no facade method rebinds or updates the filter_* objects "
+    "the predicates read (in-place `+=` on an alias included). R4: the command line wires each option into the "
     "attribute of the same meaning. A predicate outside the small recognised language yields exit 2, never a verdict."
 )
 
@@ -191,9 +192,13 @@ CLI_LISTING = {"kevents": "formatted_kevents", "traces": "formatted_traces", "ca
 
 
 def _unwrap_seq(t: T) -> T:
-    while t.op == "call" and t.a[0].op == "builtin" and t.a[0].a[0] in ("list", "tuple") and len(t.a[1]) == 1:
-        t = t.a[1][0]
-    return t
+    while True:
+        if t.op == "call" and t.a[0].op == "builtin" and t.a[0].a[0] in ("list", "tuple") and len(t.a[1]) == 1:
+            t = t.a[1][0]
+        elif t.op in ("list", "tuple") and len(t.a[0]) == 1 and t.a[0][0].op == "star":
+            t = t.a[0][0].a[0]              # [*x] / (*x,)
+        else:
+            return t
 
 
 def analyse_cli(repo: Repo, run: Run, interp) -> int:
@@ -246,8 +251,42 @@ def analyse_cli(repo: Repo, run: Run, interp) -> int:
     return n
 
 
+def analyse_residue(repo: Repo, run: Run, interp) -> None:
+    """R5: the quantifier ranges over all filter configurations on a parser object that may have served other requests
+    before.  The predicates read self.filter_tid / filter_class / filter_subclass / filter_process at listing time, so no
+    method of the facade may rebind or update those objects: a listing made afterwards would not be the exact subsequence
+    for the filters the caller set."""
+    ci = repo.cls("pykdebugparser", "PyKdebugParser")
+    n = 0
+    for name, fn in ci.methods.items():
+        if name == "__init__":
+            continue
+        n += 1
+        rec = interp.run(ci.module, fn, self_cls=ci)
+        bad = []
+        for e in rec.effects:
+            pth = e.path if e.path is not None else e.base
+            cur, chain = pth, []
+            while cur is not None and cur.op in ("attr", "sub", "mut"):
+                chain.append(cur)
+                cur = cur.a[0]
+            if e.kind == "attr-store" and pth == SELF and str(e.key).startswith("filter_"):
+                bad.append((f"rebinds self.{e.key}", e))
+            elif any(c.op == "attr" and c.a[0] == SELF and c.a[1].startswith("filter_") for c in chain) \
+                    and e.kind in ("mut-call", "sub-store", "del-sub"):
+                which = next(c.a[1] for c in chain if c.op == "attr" and c.a[0] == SELF and c.a[1].startswith("filter_"))
+                bad.append((f"updates self.{which} in place ({e.key if e.kind == 'mut-call' else e.kind})", e))
+        run.ob("R5", MOD, f"PyKdebugParser.{name}", "leaves the filter settings as the caller set them", not bad,
+               "" if not bad else f"{name}() {bad[0][0]}: an event listing requested afterwards on the same object no longer "
+                                  f"selects exactly the events matching the caller's filters",
+               line=bad[0][1].lineno if bad else fn.lineno, nontrivial=bool(rec.effects),
+               witness=None if not bad else "filter_class=[4]; call traces(); then kevents(): class 7 / 3 events are listed too")
+    run.floor("R5", "facade methods analysed", n, 12)
+
+
 def check(repo: Repo, run: Run) -> None:
     interp = sym.Interp(repo)
+    analyse_residue(repo, run, interp)
     n = 0
     for name in ("kevents", "os_log_events"):
         n += analyse_listing(repo, run, interp, name)
